@@ -66,7 +66,8 @@ type Sym struct {
 	Alts   []string              // symChoice: the condition of each alternative
 	Env    map[types.Object]*Sym // symFuncLit: the environment the literal was created in
 	Lit    *ast.FuncLit
-	Origin ast.Node // symChoice from a multi-return helper: the call; alternatives of all results of that call are aligned
+	RecvT  types.Type // symField: the static type of the expression the field was selected from
+	Origin ast.Node   // symChoice from a multi-return helper: the call; alternatives of all results of that call are aligned
 }
 
 func symUnknownOf(e ast.Expr) *Sym { return &Sym{K: symUnknown, Expr: e} }
@@ -752,12 +753,16 @@ func (w *symWalker) eval1(e ast.Expr) *Sym {
 				if base.Name == "copy" && len(sel.Index()) > 1 {
 					if st, ok := base.Type.Underlying().(*types.Struct); ok && sel.Index()[0] < st.NumFields() {
 						if emb, ok := base.Fields[st.Field(sel.Index()[0]).Name()]; ok && emb.K == symField {
-							return &Sym{K: symField, X: emb.X, Name: x.Sel.Name, Expr: e, Type: sel.Type()}
+							return &Sym{K: symField, X: emb.X, Name: x.Sel.Name, Expr: e, Type: sel.Type(), RecvT: base.Type}
 						}
 					}
 				}
 			}
-			return &Sym{K: symField, X: base, Name: x.Sel.Name, Expr: e, Type: sel.Type()}
+			fs := &Sym{K: symField, X: base, Name: x.Sel.Name, Expr: e, Type: sel.Type()}
+			if tv, ok := w.info.Types[x.X]; ok {
+				fs.RecvT = tv.Type
+			}
+			return fs
 		}
 		// package-qualified
 		if o := w.info.Uses[x.Sel]; o != nil {
@@ -1421,7 +1426,13 @@ func (w *symWalker) stmt(st ast.Stmt) (terminates bool) {
 		}
 	case *ast.RangeStmt:
 		X := w.eval(x.X)
-		if X.K == symList && len(X.Parts) <= 64 {
+		staticList := X.K == symList && len(X.Parts) <= 64
+		for _, part := range X.Parts {
+			if part.K == symRepeat {
+				staticList = false // one entry per element of another collection: not a table
+			}
+		}
+		if staticList {
 			for i, el := range X.Parts {
 				if x.Key != nil {
 					w.assign(x.Key, &Sym{K: symConst, C: constant.MakeInt64(int64(i))}, x, true)
@@ -1823,7 +1834,7 @@ func (w *symWalker) copyIfStruct(t types.Type, val *Sym) *Sym {
 	out := &Sym{K: symStruct, Fields: map[string]*Sym{}, Type: t, Name: "copy"}
 	for i := 0; i < st.NumFields(); i++ {
 		f := st.Field(i)
-		out.Fields[f.Name()] = &Sym{K: symField, X: val, Name: f.Name(), Type: f.Type()}
+		out.Fields[f.Name()] = &Sym{K: symField, X: val, Name: f.Name(), Type: f.Type(), RecvT: t}
 		out.Order = append(out.Order, f.Name())
 	}
 	return out
